@@ -302,6 +302,9 @@ def run_one(ck, prog):
             if e[0] == "bin":
                 return False
             if e[0] == "call":
+                # `?` / unwrap on the mmap Result is plumbing too
+                if (e[1] or "").endswith(("Try>::branch", "Try::branch", "::unwrap", "::unwrap_unchecked", "::expect")) and e[2]:
+                    return is_base(e[2][0], depth + 1)
                 return False
             return any(is_base(x, depth + 1) for x in e[1:] if isinstance(x, tuple))
         maps = T.call_blocks_suffix(c, "unistd::mmap::mmap")
